@@ -791,3 +791,71 @@ def h_modify_splice(old_len: int, offset: int, newlen: int, p: int) -> bool:
             return "splice changed a byte outside the write or misplaced the data"
     return True
 
+
+
+# ---- 6. where the MDMF write proxy puts the blocks inside the share -------------------------------------
+
+from allmydata.mutable import layout as lay_mod
+hlib.encoded(lay_mod.MDMFSlotWriteProxy.__init__, lay_mod.MDMFSlotWriteProxy.put_block, lay_mod.MDMFSlotWriteProxy.put_encprivkey,
+             lay_mod.MDMFSlotWriteProxy.put_blockhashes)
+
+
+def h_mdmf_block_layout(datalength: int, segsize: int, k: int, j: int) -> bool:
+    """
+    pre: k == B["k"] and segsize == B["segsize"] and 1 <= datalength and 0 <= j
+    post: _ == True
+    """
+    n = k + 2
+    w = lay_mod.MDMFSlotWriteProxy(1, None, b"S" * 16, (b"we", b"rs", b"cs"), 5, k, n, segsize, datalength)
+    # independent model of the file's segments and of the publisher's block sizes (encode_pieces / param_agreement)
+    ns = (datalength + segsize - 1) // segsize
+    assume(j < ns)
+    salt = 16
+    full_block = segsize // k
+
+    def blk(i):
+        have = _seglen(datalength, segsize, i)
+        return (have + k - 1) // k
+    size_j = blk(j)
+    if j + 1 < ns and size_j != full_block:
+        return "model error"
+    base = w._offsets['share_data']
+    fixed_end = (lay_mod.MDMFHEADERSIZE + lay_mod.PRIVATE_KEY_SIZE + lay_mod.SIGNATURE_SIZE
+                 + lay_mod.VERIFICATION_KEY_SIZE + lay_mod.SHARE_HASH_CHAIN_SIZE)
+    if w._offsets['enc_privkey'] != lay_mod.MDMFHEADERSIZE or base != fixed_end:
+        return "share data does not start right after the fixed-size header/key/signature/hash-chain area"
+    # the block the publisher produces for segment j is accepted and queued at its slot
+    w.put_block(ProvBuf.src("blk", size_j, 0), j, ProvBuf.src("salt", salt, 0))
+    if len(w._writevs) != 1:
+        return "put_block did not queue exactly one write"
+    (off, data) = w._writevs[0]
+    want_off = base + j * (salt + full_block)              # all earlier segments are full ones
+    if off != want_off or len(data) != salt + size_j:
+        return "block j is not written at share_data + j*(salt+block) with its salt in front"
+    if data.at(0) != ("salt", 0) or (size_j > 0 and data.at(salt) != ("blk", 0)):
+        return "salt/block order wrong"
+    end_j = off + len(data)
+    # blocks are disjoint and contiguous: the next block starts where this one ends; the last one ends exactly where
+    # the block hash tree begins (also when datalength is an exact multiple of the segment size)
+    if j + 1 < ns:
+        if end_j != base + (j + 1) * (salt + full_block):
+            return "gap/overlap between consecutive blocks"
+    else:
+        if end_j != w._offsets['block_hash_tree']:
+            return "last block does not end where the block hash tree starts (overlap or gap)"
+    total = (ns - 1) * (salt + full_block) + salt + blk(ns - 1)
+    if w._offsets['block_hash_tree'] - base != total:
+        return "share data area is not the sum of the (salt + block) sizes"
+    # a block of any other size is refused
+    try:
+        w.put_block(ProvBuf.src("blk", size_j + 1, 0), j, ProvBuf.src("salt", salt, 0))
+        return "oversized block accepted"
+    except lay_mod.LayoutInvalid:
+        pass
+    # later fields start after the data: the block hash tree write lands at offsets['block_hash_tree'], EOF after it
+    w.put_encprivkey(b"k" * 10)
+    w.put_blockhashes([b"h" * 32, b"h" * 32])
+    (boff, bdata) = w._writevs[-1]
+    if boff != w._offsets['block_hash_tree'] or w._offsets['EOF'] != boff + 64:
+        return "block hash tree not placed right after the share data"
+    return True
